@@ -110,6 +110,22 @@ static void run_d(Choice &c, Ctx &cx)
             if (perm_c != pc_before) { cx.fail("symmetric-mode-perm", "SymmetricMode=YES must not postorder, but perm_c was changed by sp_preorder"); ok = false; }
         }
     } while (0);
+    // The factor routine takes etree and perm_c as inputs: they must still describe the permuted matrix afterwards (the
+    // expert drivers hand the same etree back to the caller, who passes it in again with Fact = SamePattern...).
+    if (ok && m >= n && c.chance(128) && !(cx.is_known("F-SS") && maybe_exactly_singular(G))) {
+        std::vector<int> et0 = etree, pc0 = perm_c, perm_r(m, -1);
+        SuperMatrix L, U; std::memset(&L, 0, sizeof L); std::memset(&U, 0, sizeof U);
+        SuperLUStat_t stat; StatInit(&stat); GlobalLU_t Glu; std::memset(&Glu, 0, sizeof Glu); int_t info = -999;
+        bool ab = guarded([&] { Tr<T>::gstrf(&so, &AC, sp_ienv(2), sp_ienv(1), etree.data(), nullptr, 0, perm_c.data(), perm_r.data(), &L, &U, &Glu, &stat, &info); }) != 0;
+        if (ab) { cx.fail("abort", fmt("gstrf: library called ABORT: %s", vf_abort_msg())); ok = false; }
+        else {
+            if (info >= 0 && info <= n) { Destroy_SuperNode_Matrix(&L); Destroy_CompCol_Matrix(&U); }
+            if (etree != et0) { cx.fail("etree-after-factorization", fmt("?gstrf changed the elimination tree it was given: %s became %s (SymmetricMode=%d)", vec_str(std::vector<int>(et0.begin(), et0.begin() + n)).c_str(), vec_str(std::vector<int>(etree.begin(), etree.begin() + n)).c_str(), (int)symmetric)); ok = false; }
+            else if (perm_c != pc0) { cx.fail("perm_c-after-factorization", "?gstrf changed the column permutation it was given"); ok = false; }
+            else cx.label("etree-unchanged-by-gstrf");
+        }
+        StatFree(&stat);
+    }
     cleanup();
     if (!ok) { vf_purge(); return; }
     if (!ledger_clean(cx, "after Destroy_CompCol_Permuted")) return;
